@@ -13,16 +13,45 @@
 (* Agent behaviours: exits by itself once phase `at` has been reached       *)
 (* (at = 5: never), exits on end of input, exits on SIGTERM - each either   *)
 (* promptly or only after the following timer has expired ("slow") -, or    *)
-(* ignores everything.  SIGKILL always ends the process (kernel).           *)
+(* ignores everything.  SIGKILL always ends the agent process (kernel) -    *)
+(* and only the agent: signals go to its pid, not to its descendants.       *)
+(*                                                                         *)
+(* Process tree and the standard error pipe.  The agent may have started a  *)
+(* child of its own:                                                        *)
+(*   "none"     no child                                                    *)
+(*   "inherit"  a child that inherited the agent's standard error and       *)
+(*              outlives the agent (it never exits within the behaviour)    *)
+(*   "own"      a child with its own standard error that outlives the agent *)
+(*   "dies"     a child that inherited standard error and exits once the    *)
+(*              agent is gone                                               *)
+(* When NewStream was given a standard error receiver (recv), the agent's   *)
+(* standard error is a pipe and a forwarding goroutine copies from it until *)
+(* end of file.  A pipe reaches end of file only when EVERY holder of its   *)
+(* write end has closed it - the agent and each descendant that inherited   *)
+(* it (Holders).  Wait, on the contrary, returns when the agent process     *)
+(* itself has exited, whoever still holds the pipe, and then closes the     *)
+(* read end, which also ends the forwarding goroutine.                      *)
+(* WaitsForCopy = FALSE is the code: the waiting goroutine calls Wait at    *)
+(* once.  WaitsForCopy = TRUE is the classic mistake (wait for the          *)
+(* forwarding goroutine first, then Wait): AgentClose_MC_waitcopy.cfg,      *)
+(* expected to FAIL - Close then depends on pipe end of file and hangs,     *)
+(* with the agent never reaped, for as long as a descendant lives.          *)
 (***************************************************************************)
 EXTENDS AgentCloseProps
 
-CONSTANT Agents
-VARIABLES agent, phase, exited, waited, stdinClosed, termSent, killSent, returned
-vars == <<agent, phase, exited, waited, stdinClosed, termSent, killSent, returned>>
+CONSTANTS Agents, WaitsForCopy
+VARIABLES agent, phase, exited, waited, stdinClosed, termSent, killSent, returned, childAlive, copyDone
+vars == <<agent, phase, exited, waited, stdinClosed, termSent, killSent, returned, childAlive, copyDone>>
 
 Init == /\ agent \in Agents /\ phase = 1 /\ exited = FALSE /\ waited = FALSE
         /\ stdinClosed = FALSE /\ termSent = FALSE /\ killSent = FALSE /\ returned = FALSE
+        /\ childAlive = (agent.child # "none")
+        /\ copyDone = ~agent.recv            \* no receiver: no pipe, no forwarding goroutine
+
+\* who holds the write end of the standard error pipe
+Holders == (IF exited THEN {} ELSE {"agent"})
+           \cup (IF childAlive /\ agent.child \in {"inherit", "dies"} THEN {"child"} ELSE {})
+PipeEOF == Holders = {}
 
 MayExit ==
   \/ killSent
@@ -31,13 +60,21 @@ MayExit ==
   \/ agent.kind = "term" /\ termSent /\ (~agent.slow \/ phase >= 4)
 
 ProcExit == /\ ~exited /\ MayExit /\ exited' = TRUE
-            /\ UNCHANGED <<agent, phase, waited, stdinClosed, termSent, killSent, returned>>
+            /\ UNCHANGED <<agent, phase, waited, stdinClosed, termSent, killSent, returned, childAlive, copyDone>>
+\* only the "dies" child ever goes away, and only after the agent
+ChildExit == /\ childAlive /\ agent.child = "dies" /\ exited /\ childAlive' = FALSE
+             /\ UNCHANGED <<agent, phase, exited, waited, stdinClosed, termSent, killSent, returned, copyDone>>
+\* io.Copy(receiver, standardError) returns: end of file, or the read end was closed by Wait
+CopyEnds == /\ ~copyDone /\ (PipeEOF \/ waited) /\ copyDone' = TRUE
+            /\ UNCHANGED <<agent, phase, exited, waited, stdinClosed, termSent, killSent, returned, childAlive>>
 \* the waiting goroutine: waitResults <- s.process.Wait()
-WaitDone == /\ exited /\ ~waited /\ waited' = TRUE
-            /\ UNCHANGED <<agent, phase, exited, stdinClosed, termSent, killSent, returned>>
+WaitDone == /\ exited /\ ~waited
+            /\ (WaitsForCopy => copyDone)
+            /\ waited' = TRUE
+            /\ UNCHANGED <<agent, phase, exited, stdinClosed, termSent, killSent, returned, childAlive, copyDone>>
 \* case err := <-waitResults: return err
 TakeResult == /\ ~returned /\ waited /\ returned' = TRUE
-              /\ UNCHANGED <<agent, phase, exited, waited, stdinClosed, termSent, killSent>>
+              /\ UNCHANGED <<agent, phase, exited, waited, stdinClosed, termSent, killSent, childAlive, copyDone>>
 \* case <-waitTimer.C: escalate
 TimerFires ==
   /\ ~returned /\ phase \in 1..3
@@ -45,15 +82,19 @@ TimerFires ==
   /\ stdinClosed' = (stdinClosed \/ phase = 1)
   /\ termSent' = (termSent \/ phase = 2)
   /\ killSent' = (killSent \/ phase = 3)
-  /\ UNCHANGED <<agent, exited, waited, returned>>
+  /\ UNCHANGED <<agent, exited, waited, returned, childAlive, copyDone>>
 
-Next == ProcExit \/ WaitDone \/ TakeResult \/ TimerFires
+Next == ProcExit \/ ChildExit \/ CopyEnds \/ WaitDone \/ TakeResult \/ TimerFires
 Spec == Init /\ [][Next]_vars
-FairSpec == Spec /\ WF_vars(ProcExit) /\ WF_vars(WaitDone) /\ WF_vars(TakeResult) /\ WF_vars(TimerFires)
+FairSpec == Spec /\ WF_vars(ProcExit) /\ WF_vars(ChildExit) /\ WF_vars(CopyEnds) /\ WF_vars(WaitDone)
+                 /\ WF_vars(TakeResult) /\ WF_vars(TimerFires)
 
 Obs == [returned |-> returned, alive |-> ~exited]
 Inv_Exited == C35_Exited(Obs)
 Inv_Reaped == returned => waited
 Inv_Order == (killSent => termSent) /\ (termSent => stdinClosed)
+\* Close does not depend on the pipe: it may return while a descendant still holds it
 Returns == <>C35_Returns(Obs)
+\* ... and the agent is reaped although the pipe never reaches end of file
+ReapedDespiteHolders == <>(waited)
 ====
